@@ -101,6 +101,16 @@ func main() {
 			fatal("usage: askreentr ask-stash <runs> <trace>")
 		}
 		askStash(atoi(args[0]), args[1])
+	case "dl-replay":
+		if len(args) != 3 {
+			fatal("usage: askreentr dl-replay <behaviours> <trace> <port>")
+		}
+		dlReplay(args[0], args[1], atoi(args[2]))
+	case "dl-stress":
+		if len(args) != 4 {
+			fatal("usage: askreentr dl-stress <histories> <seed> <trace> <port>")
+		}
+		dlStress(atoi(args[0]), int64(atoi(args[1])), args[2], atoi(args[3]))
 	default:
 		fatal("unknown subcommand", os.Args[1])
 	}
